@@ -24,11 +24,13 @@ fn v(prop: &'static str, kind: &'static str, detail: String) -> Violation {
 pub type GraphCheck = fn(&GraphSpec, &mut Stats, &mut Vec<Violation>);
 
 fn real_build(gs: &GraphSpec) -> Result<(FnGraph<TFn>, tfn::BuildLog), String> {
-    catch_unwind(AssertUnwindSafe(|| {
-        let (b, log) = tfn::builder_from_spec(gs);
-        (b.build(), log)
-    }))
-    .map_err(panic_msg)
+    tfn::guarded(gs.n, || {
+        catch_unwind(AssertUnwindSafe(|| {
+            let (b, log) = tfn::builder_from_spec(gs);
+            (b.build(), log)
+        }))
+        .map_err(panic_msg)
+    })
 }
 
 // ------------------------------------------------------------------------------------------ C11
@@ -126,7 +128,7 @@ fn mutate(gs: &GraphSpec, ug: &UserGraph, rng: &mut Rng) -> Option<(GraphSpec, &
                 // change a function
                 let i = rng.below(n);
                 let mut m = gs.clone();
-                let bit = 1u8 << rng.below(3);
+                let bit: crate::model::Mask = 1 << rng.below(3);
                 if rng.chance(1, 2) {
                     m.reads[i] ^= bit;
                 } else {
@@ -385,8 +387,19 @@ pub fn check_c14(gs: &GraphSpec, st: &mut Stats, out: &mut Vec<Violation>) {
         out.push(v("C14", "insertion-order", format!("iter_insertion {ins:?} / _mut {ins_mut:?} / _with_indices {ins_idx:?}")));
         return;
     }
-    // failure at every position
+    // failure at every position (a panic in here is reported, not allowed to take the worker down)
     let order: Vec<usize> = res.iter().find(|r| r.0 == "try_fold").unwrap().2.clone();
+    let fail_loop = catch_unwind(AssertUnwindSafe(|| c14_failure_positions(&mut g, &built, &order, st)));
+    match fail_loop {
+        Err(p) => out.push(v("C14", "iteration-panicked", format!("after an earlier try_fold / try_for_each / map that stopped early: {}", panic_msg(p)))),
+        Ok(Some(viol)) => out.push(viol),
+        Ok(None) => {}
+    }
+}
+
+fn c14_failure_positions(g: &mut FnGraph<TFn>, built: &Built, order: &[usize], st: &mut Stats) -> Option<Violation> {
+    let n = built.n;
+    let mut out: Vec<Violation> = Vec::new();
     for k in 0..n {
         let mut seen = Vec::new();
         let r = g.try_fold(0usize, |acc, f| {
@@ -399,7 +412,7 @@ pub fn check_c14(gs: &GraphSpec, st: &mut Stats, out: &mut Vec<Violation>) {
         });
         if r != Err(order[k]) || seen.len() != k + 1 || seen[..] != order[..k + 1] {
             out.push(v("C14", "try_fold-after-error", format!("failing the {k}-th visited function: returned {r:?}, visited {seen:?}, clean order {order:?}")));
-            return;
+            return out.pop();
         }
         let mut seen = Vec::new();
         let r = g.try_for_each(|f| {
@@ -412,10 +425,27 @@ pub fn check_c14(gs: &GraphSpec, st: &mut Stats, out: &mut Vec<Violation>) {
         });
         if r != Err(order[k]) || seen.len() != k + 1 {
             out.push(v("C14", "try_for_each-after-error", format!("failing the {k}-th visited function: returned {r:?}, visited {seen:?}")));
-            return;
+            return out.pop();
         }
         st.count("failure_positions_checked");
+        // a partially consumed map() iterator, dropped
+        if k % 3 == 0 {
+            let part: Vec<usize> = g.map(|f| f.idx).take(k).collect();
+            if part[..] != order[..k] {
+                out.push(v("C14", "order", format!("map() taken {k}: {part:?}, clean order {order:?}")));
+                return out.pop();
+            }
+        }
     }
+    // iterations that stopped early must not influence later ones
+    let again = g.fold(Vec::new(), |mut s, f| {
+        s.push(f.idx);
+        s
+    });
+    if let Some(m) = order_violation(built, &again, false) {
+        out.push(v("C14", "order-after-early-exit", format!("fold after earlier iterations that stopped early: {m}; order {again:?}")));
+    }
+    out.pop()
 }
 
 // ------------------------------------------------------------------------------------------ C16
@@ -590,7 +620,10 @@ pub fn check_c16_ops(ops: &[Op], st: &mut Stats, out: &mut Vec<Violation>) {
             }
         }
         let n = ids.len();
-        let g = b.build();
+        if !problems.is_empty() {
+            return (problems, counts);
+        }
+        let g = tfn::guarded(n, || b.build());
         let built = tfn::built_of(&g);
         let mut got: Vec<(usize, usize, BK)> = built.edges.iter().filter(|e| e.2 != BK::Data).copied().collect();
         let mut want: Vec<(usize, usize, BK)> = edges.iter().map(|&(a, bb, k)| (a, bb, BK::from(k))).collect();
@@ -896,8 +929,8 @@ pub fn thread_cpu_ns() -> u64 {
 pub fn growth_family(fam: usize, size: usize, rng: &mut Rng) -> GraphSpec {
     let mut edges: Vec<(usize, usize)> = Vec::new();
     let n;
-    let mut reads;
-    let mut writes;
+    let mut reads: Vec<crate::model::Mask>;
+    let mut writes: Vec<crate::model::Mask>;
     match fam {
         // 0,1,2: layered w x size, complete bipartite between layers; accesses: none / all write one type / ends conflict
         0 | 1 | 2 | 3 => {
@@ -910,8 +943,8 @@ pub fn growth_family(fam: usize, size: usize, rng: &mut Rng) -> GraphSpec {
                     }
                 }
             }
-            reads = vec![0u8; n];
-            writes = vec![0u8; n];
+            reads = vec![0; n];
+            writes = vec![0; n];
             match fam {
                 1 => writes.iter_mut().for_each(|x| *x = 1),
                 2 | 3 => {
@@ -938,8 +971,8 @@ pub fn growth_family(fam: usize, size: usize, rng: &mut Rng) -> GraphSpec {
             for i in 0..nb - 1 {
                 edges.push((na + i, na + i + 1));
             }
-            reads = vec![0u8; n];
-            writes = vec![0u8; n];
+            reads = vec![0; n];
+            writes = vec![0; n];
             writes[0] = 1;
             writes[n - 1] = 1;
         }
@@ -953,8 +986,8 @@ pub fn growth_family(fam: usize, size: usize, rng: &mut Rng) -> GraphSpec {
                 edges.push((b + 1, b + 3));
                 edges.push((b + 2, b + 3));
             }
-            reads = vec![0u8; n];
-            writes = vec![0u8; n];
+            reads = vec![0; n];
+            writes = vec![0; n];
             for i in 0..=size {
                 writes[3 * i] = 1;
             }
@@ -963,8 +996,8 @@ pub fn growth_family(fam: usize, size: usize, rng: &mut Rng) -> GraphSpec {
         // 6: isolated functions, all writers of one type (augmenter chains them; quadratic pair scan)
         6 => {
             n = 4 * size;
-            reads = vec![0u8; n];
-            writes = vec![1u8; n];
+            reads = vec![0; n];
+            writes = vec![1; n];
         }
         // 7: complete DAG, alternate readers / writers
         _ => {
@@ -974,8 +1007,8 @@ pub fn growth_family(fam: usize, size: usize, rng: &mut Rng) -> GraphSpec {
                     edges.push((i, j));
                 }
             }
-            reads = (0..n).map(|i| (i % 2) as u8).collect();
-            writes = (0..n).map(|i| ((i + 1) % 2) as u8).collect();
+            reads = (0..n).map(|i| (i % 2) as crate::model::Mask).collect();
+            writes = (0..n).map(|i| ((i + 1) % 2) as crate::model::Mask).collect();
         }
     }
     // random relabelling so that insertion order is not topological order
@@ -983,8 +1016,8 @@ pub fn growth_family(fam: usize, size: usize, rng: &mut Rng) -> GraphSpec {
     rng.shuffle(&mut perm);
     let mut calls: Vec<(u32, u32, EK)> = edges.iter().map(|&(a, b)| (perm[a] as u32, perm[b] as u32, EK::Logic)).collect();
     rng.shuffle(&mut calls);
-    let mut r2 = vec![0u8; n];
-    let mut w2 = vec![0u8; n];
+    let mut r2: Vec<crate::model::Mask> = vec![0; n];
+    let mut w2: Vec<crate::model::Mask> = vec![0; n];
     for i in 0..n {
         r2[perm[i]] = reads[i];
         w2[perm[i]] = writes[i];
@@ -994,13 +1027,13 @@ pub fn growth_family(fam: usize, size: usize, rng: &mut Rng) -> GraphSpec {
 
 pub const GROWTH_FAMILIES: usize = 8;
 const GROWTH_RATIO: f64 = 3.0;
-const GROWTH_MIN_NS: u64 = 300_000;
+const GROWTH_MIN_NS: u64 = 40_000;
 const GROWTH_STOP_NS: u64 = 60_000_000;
 
 /// Measures build() CPU time along one family. Returns the (n, ns) series.
 pub fn growth_series(fam: usize, seed: u64, max_size: usize) -> Result<Vec<(usize, u64)>, String> {
     let mut series = Vec::new();
-    let mut size = 10;
+    let mut size = 6;
     // the hook budget must not interfere here
     fn_graph::verif_hooks::set_rank_calc_pop_budget(None);
     while size <= max_size {
@@ -1036,7 +1069,10 @@ pub fn superpolynomial(series: &[(usize, u64)]) -> Option<usize> {
     let mut run = 0;
     for i in 1..series.len() {
         let (a, b) = (series[i - 1].1, series[i].1);
-        if a >= GROWTH_MIN_NS / 4 && b >= GROWTH_MIN_NS && (b as f64) >= GROWTH_RATIO * (a as f64) {
+        // a step counts when the cost grew by more than ANY polynomial of degree <= 6 could over
+        // the same growth in n (and by at least GROWTH_RATIO), above the measurement noise floor
+        let poly6 = (series[i].0 as f64 / series[i - 1].0.max(1) as f64).powi(6);
+        if a >= GROWTH_MIN_NS / 4 && b >= GROWTH_MIN_NS && (b as f64) >= GROWTH_RATIO.max(poly6) * (a as f64) {
             run += 1;
             if run >= 3 {
                 return Some(i);
@@ -1163,29 +1199,6 @@ pub fn run(opts: &Opts) -> Option<(Stats, Vec<String>, String)> {
     };
 
     if prop == "C18" {
-        let max_n = if q { 40 } else { 160 };
-        let cases = ((if q { 20_000 } else { 12_000 }) as f64 * opts.scale) as u64;
-        // fixed hostile members first: layered 4x6 .. and K_n
-        let rnd = par_for(opts.jobs, cases, 16, Some(deadline), |st, i, slot| {
-            let mut rng = Rng::new(mix(seed, i));
-            let gs = c18_graph(&mut rng, max_n);
-            {
-                let mut w = slot.what.lock().unwrap();
-                w.clear();
-                w.push_str(&format!("g={}", if gs.n <= 40 { gs.encode() } else { format!("(n={} seed={} idx={})", gs.n, seed, i) }));
-            }
-            st.evaluations += 1;
-            st.distinct_insert(hash_of(&gs));
-            let mut out = Vec::new();
-            check_c18(&gs, st, &mut out);
-            for vv in out.iter().take(1) {
-                st.violation(vv, format!("g={}", gs.encode()), String::new());
-            }
-            if st.samples.len() < 2 && i % 211 == 0 && gs.n <= 24 {
-                st.samples.push(J::obj(vec![("graph", J::s(gs.encode())), ("rank_calc_pops", J::u(fn_graph::verif_hooks::rank_calc_pops())), ("budget", J::u((gs.n * gs.n + gs.n) as u64))]));
-            }
-        });
-        total.merge(rnd);
         // second monitor: CPU-time growth along families (hook-free; covers work outside RankCalc)
         let max_size = if q { 40 } else { 70 };
         let reps: u64 = if q { 2 } else { 6 };
@@ -1211,7 +1224,7 @@ pub fn run(opts: &Opts) -> Option<(Stats, Vec<String>, String)> {
                             prop: "C18",
                             kind: "build-cpu-time-grows-geometrically",
                             detail: format!(
-                                "family {fam}: build() CPU time multiplies by >= {GROWTH_RATIO} on three consecutive +2-layer steps (n grows by <= 20 % per step; polynomial work of degree <= 6 cannot): (functions, microseconds) = {:?}",
+                                "family {fam}: on three consecutive +2-layer steps the CPU time of build() multiplies by >= {GROWTH_RATIO} and by more than (n2/n1)^6, i.e. faster than any polynomial of degree <= 6: (functions, microseconds) = {:?}",
                                 series[..=at].iter().map(|x| (x.0, x.1 / 1000)).collect::<Vec<_>>()
                             ),
                         };
@@ -1224,6 +1237,34 @@ pub fn run(opts: &Opts) -> Option<(Stats, Vec<String>, String)> {
             }
         });
         total.merge(gr);
+        if total.violation_count > 0 {
+            // build() cost explodes: the random phase below would only run into the watchdog
+            let rule = "growth monitor reported a violation; the random phase was skipped".to_string();
+            return Some((total, Vec::new(), rule));
+        }
+        let max_n = if q { 40 } else { 160 };
+        let cases = ((if q { 20_000 } else { 12_000 }) as f64 * opts.scale) as u64;
+        // fixed hostile members first: layered 4x6 .. and K_n
+        let rnd = par_for(opts.jobs, cases, 16, Some(deadline), |st, i, slot| {
+            let mut rng = Rng::new(mix(seed, i));
+            let gs = c18_graph(&mut rng, max_n);
+            {
+                let mut w = slot.what.lock().unwrap();
+                w.clear();
+                w.push_str(&format!("g={}", if gs.n <= 40 { gs.encode() } else { format!("(n={} seed={} idx={})", gs.n, seed, i) }));
+            }
+            st.evaluations += 1;
+            st.distinct_insert(hash_of(&gs));
+            let mut out = Vec::new();
+            check_c18(&gs, st, &mut out);
+            for vv in out.iter().take(1) {
+                st.violation(vv, format!("g={}", gs.encode()), String::new());
+            }
+            if st.samples.len() < 2 && i % 211 == 0 && gs.n <= 24 {
+                st.samples.push(J::obj(vec![("graph", J::s(gs.encode())), ("rank_calc_pops", J::u(fn_graph::verif_hooks::rank_calc_pops())), ("budget", J::u((gs.n * gs.n + gs.n) as u64))]));
+            }
+        });
+        total.merge(rnd);
         let mut floors = Vec::new();
         if total.counters.get("growth.series_measured").copied().unwrap_or(0) < GROWTH_FAMILIES as u64 {
             floors.push("growth monitor did not measure every family".to_string());
@@ -1333,7 +1374,23 @@ pub fn run(opts: &Opts) -> Option<(Stats, Vec<String>, String)> {
             p.max_access = 1;
             st.count("graphs_with_hundreds_of_functions");
         }
+        if i % 500 == 33 {
+            // more distinct data types in one graph than fit in a 64-bit mask
+            fam = *rng.pick(&[Family::SparseEr, Family::Isolated, Family::Chain, Family::Layered]);
+            n = rng.range(40, 90);
+            p.hostile_calls = false;
+            p.types = rng.range(70, 128);
+            p.max_access = 4;
+            st.count("graphs_with_more_than_64_data_types_on_offer");
+        }
         let gs = gen::random_graph_of(&mut rng, fam, n, &p);
+        {
+            let mut all: crate::model::Mask = 0;
+            for i in 0..gs.n {
+                all |= gs.reads[i] | gs.writes[i];
+            }
+            st.max("max_distinct_data_types_in_a_graph", all.count_ones() as u64);
+        }
         st.max("max_functions", gs.n as u64);
         st.count(&format!("family.{fam:?}"));
         run_graph_check(prop, check, &gs, st);
